@@ -10,6 +10,7 @@ import (
 	"fmt"
 	"math/rand"
 	"runtime"
+	"strings"
 	"time"
 
 	"google.golang.org/grpc/codes"
@@ -41,6 +42,18 @@ func init() {
 		// client role overruns
 		for _, c := range listers["C09"](tier, seed) {
 			if c.Family == "rawsrv" && c.S["dev"] == "overrun" {
+				out = append(out, c)
+			}
+		}
+		// peers that advertise a window other than the library's own 64 KiB (settings variants win1 /
+		// win100 / win16384 / winmax; raw clients advertising 0 / 10 / 20000 bytes per stream)
+		for _, c := range listers["C11"](tier, seed) {
+			if c.Family == "settings" && strings.HasPrefix(c.S["variant"], "win") {
+				out = append(out, c)
+			}
+		}
+		for _, c := range listers["C09"](tier, seed) {
+			if c.Family == "blockedsend" {
 				out = append(out, c)
 			}
 		}
